@@ -19,6 +19,7 @@ from typing import Any
 import falcon
 
 from .._common import (
+    _ARROW_CONTENT_TYPE,
     _ERROR_PAGE_STYLE,
     _FONT_IMPORTS,
     _VGI_LOGO_HTML,
@@ -26,6 +27,8 @@ from .._common import (
     AUTH_REASON_HEADER,
 )
 from .._unauthorized import AuthReason
+from ._middleware import _ArrowBodyError
+from ._responses import _error_response_stream
 
 _NOT_FOUND_HTML_TEMPLATE = (
     """\
@@ -151,7 +154,9 @@ def _wants_html(req: falcon.Request) -> bool:
     return "text/html" in (req.get_header("Accept") or "")
 
 
-def _make_error_serializer(proxy_hint: str = "") -> Callable[[falcon.Request, falcon.Response, falcon.HTTPError], None]:
+def _make_error_serializer(
+    proxy_hint: str = "", server_id: str | None = None
+) -> Callable[[falcon.Request, falcon.Response, falcon.HTTPError], None]:
     """Build the Falcon error serializer for one app.
 
     Only ``HTTPUnauthorized`` (401) is given the standardized treatment; every
@@ -162,6 +167,7 @@ def _make_error_serializer(proxy_hint: str = "") -> Callable[[falcon.Request, fa
             its authentication does not depend on a reverse proxy. Fixed for
             the life of the app — see :mod:`vgi_rpc.http._unauthorized` for
             why it is not derived per request.
+        server_id: Server identifier stamped into Arrow IPC error bodies.
 
     Returns:
         A serializer suitable for ``falcon.App.set_error_serializer``.
@@ -172,6 +178,14 @@ def _make_error_serializer(proxy_hint: str = "") -> Callable[[falcon.Request, fa
 
     def _serialize(req: falcon.Request, resp: falcon.Response, exc: falcon.HTTPError) -> None:
         """Serialize one Falcon error onto the response."""
+        if isinstance(exc, _ArrowBodyError):
+            # 413 / 400 raised by the request-size and content-decoding
+            # middleware: same Arrow IPC error envelope as every other
+            # 400 / 413 on an RPC route.
+            cause = RuntimeError(f"{exc.title}: {exc.description}" if exc.description else str(exc.title))
+            resp.content_type = _ARROW_CONTENT_TYPE
+            resp.data = _error_response_stream(cause, server_id=server_id).getvalue()
+            return
         if not isinstance(exc, falcon.HTTPUnauthorized):
             resp.content_type = falcon.MEDIA_JSON
             resp.data = exc.to_json()
